@@ -204,8 +204,10 @@ def species_spec(rnd, name, formula, g_target, T, cls='nasa', mol=None, phase='a
         active = nasa_coeffs(rnd, g_target, T)
         variant = rnd.choice(['same', 'distinct', 'distinct'])
         other = list(active) if variant == 'same' else nasa_coeffs(rnd, g_target + rnd.uniform(-3.0, 3.0), T)
-        s['T_low'] = rnd.choice([200.0, 300.0])
-        s['T_high'] = rnd.choice([2500.0, 3000.0])
+        # the fit range need not contain the temperature of the calculation (seed C16-14): NASA-7 species are
+        # evaluated where they are asked, e.g. the bundled thermdat ends at 1500 K
+        s['T_low'] = rnd.choice([200.0, 300.0, 200.0, 300.0, 700.0])
+        s['T_high'] = rnd.choice([2500.0, 3000.0, 2500.0, 3000.0, 1500.0, 1100.0])
         s['T_mid'] = 1000.0
         s['a_low'], s['a_high'] = (active, other) if T < 1000.0 else (other, active)
         s['phase'] = rnd.choice([None, None, 'G', 'gas']) if phase == 'any' else phase
